@@ -53,6 +53,14 @@ def c05(chk):
         if real:
             stagger = rng.choice([600, 900])
         first, second = ("bg a connect 0 1", "bg b connect 1 0") if rng.random() < 0.5 or not real else ("bg b connect 1 0", "bg a connect 0 1")
+        if not real and rng.random() < 0.3:
+            # one of the two dials (or both) reaches the other node under its second address: what each side sees as the
+            # other's address differs between the two connections at one side only; the outcome must not depend on it
+            w = rng.choice([0, 1, 2])
+            if w in (0, 2):
+                first += " ip=2"
+            if w in (1, 2):
+                second += " ip=%d" % rng.choice([2, 3])
         # in a quarter of the (virtual-time) runs one or both of the dials are background dials: the other node is entered
         # as a High-affinity known peer and the periodic connectivity check (every 100 ms) dials it
         bgd = set()
@@ -123,6 +131,8 @@ def c05(chk):
         ja, jb = r.get("join a", ["ok 1"])[0], r.get("join b", ["ok 0"])[0]
         if "join a" not in r or "join b" not in r:
             chk.count("mutual-dial-with-background-dial")
+        if " ip=" in sc:
+            chk.count("mutual-dial-through-a-second-address")
         limited = " maxconn=1" in sc
         if limited:
             chk.count("mutual-dial-with-a-connection-limit-of-1")
@@ -1158,6 +1168,25 @@ def rpc_trace_compare(chk, sc, case, obs, m):
             chk.disagree(sc, "stream %s: caller got no response" % i, "Rpc.v: " + cs[:300], "simnet/rpctrace-observables")
 
 
+def sent_header_digest(args):
+    """Digest (as the node service computes it over what it received) of the header map an `rpc` command with these
+    arguments puts on its request."""
+    a = dict(x.split("=", 1) for x in args.split() if "=" in x)
+    h = {"id": a.get("id", "0")}
+    for k in ("sleep-ms", "resp-size", "resp-hdr-size", "status", "panic", "ticks"):
+        if k in a:
+            h[k] = a[k]
+    if "hdr-size" in a:
+        h["pad"] = "q" * int(a["hdr-size"])
+    if "timeout-hdr" in a:
+        h["timeout"] = bytes.fromhex(a["timeout-hdr"].replace("-", "")).decode()
+    for kv in a.get("xh", "").split(","):
+        if ":" in kv:
+            k, v = kv.split(":")
+            h[bytes.fromhex(k).decode()] = bytes.fromhex(v).decode()
+    return digest("".join(sorted("%s=%s\n" % kv for kv in h.items())).encode())
+
+
 def c02(chk):
     quick = chk.tier == "quick"
     scen, metas, allroutes = [], [], []
@@ -1181,11 +1210,15 @@ def c02(chk):
         if limit and rng.random() < 0.5:
             lims[rng.choice([0, 1])] = rng.choice([None, 20000, 100000, 2000000])
         mf = lambda i: " maxframe=%d" % lims[i] if lims[i] else ""
+        # in 40% of the scenarios one or both nodes have a (far-away) outbound default timeout, and some calls carry a
+        # (far-away) timeout header of their own: neither may change what the handler receives
+        ot = lambda: " out_to=3600000" if rng.random() < 0.3 else ""
         cmds = ["seed=%d %s" % (rng.randrange(1 << 30), link),
-                "node 0 idle=60000 keepalive=5000" + mf(0), "node 1 idle=60000 keepalive=5000" + mf(1), "connect 0 1", "sleep 500"]
+                "node 0 idle=60000 keepalive=5000" + mf(0) + ot(), "node 1 idle=60000 keepalive=5000" + mf(1) + ot(), "connect 0 1", "sleep 500"]
         k = rng.choice([1, 4, 16, 64]) if quick else rng.choice([1, 8, 32, 64, 128])
         rpcs = []
         routes = {}
+        hdig = {}
         big = 0
         for j in range(k):
             a = rng.choice([0, 1])
@@ -1212,6 +1245,8 @@ def c02(chk):
                 # routes of every shape (these nodes serve one service for all routes): the handler must see the very string sent
                 route = rng.choice(["", "/", "echo", "//", "/a//b", "a//b//", "/echo/", "//echo", "/a/b/c", "/\u00e9", "\u00e9/x", "/a b", " /a", "/A/B", "/a/./b", "/a/../b", "/%2F", "/" + "r" * rng.randrange(1, 300)])
                 args += " route=%s" % (route.encode().hex() or "-")
+            if rng.random() < 0.15:
+                args += " timeout-hdr=" + rng.choice([b"7200000000000", b"1800000000000", b"not-a-number"]).hex()
             st = 200
             if rng.random() < 0.3:
                 # the handler answers with a status of its own choosing (with its usual, usually non-empty, body)
@@ -1225,12 +1260,13 @@ def c02(chk):
             cmds.append("bg %s rpc %d %d %s" % (rid, a, b, args))
             rpcs.append((rid, a, b, size, rs, st))
             routes[rid] = route
+            hdig[rid] = sent_header_digest(args)
         for rid, *_ in rpcs:
             cmds.append("join %s 300000" % rid)
         cmds += ["log 0", "log 1", "peers 0", "trace"]
         scen.append("simnet " + " ; ".join(cmds))
         metas.append((rpcs, faults, lims))
-        allroutes.append(routes)
+        allroutes.append((routes, hdig))
     outs, parsed = run_scenarios(chk, scen, "fabric:rpc")
     # trace acceptance: the per-RPC events both ends recorded are replayed on Rpc.v (RpcTrace.erun); runs under
     # datagram loss are left out (a connection may be lost there, which the stream-level model does not contain)
@@ -1258,7 +1294,7 @@ def c02(chk):
         chk.evaluations += 1
         chk.count("rpc-trace-events", len(case.split("|")[2].split()))
         rpc_trace_compare(chk, scen[k], case, obs, m)
-    for sc, o, res, (rpcs, faults, lims), routes in zip(scen, outs, parsed, metas, allroutes):
+    for sc, o, res, (rpcs, faults, lims), (routes, hdig) in zip(scen, outs, parsed, metas, allroutes):
         if res is None:
             continue
         chk.nontriv(sc)
@@ -1276,6 +1312,8 @@ def c02(chk):
                 f = fields(out)
                 want_body = pat_digest(rs, len(rid)) if rs is not None else want_sent
                 chk.count("response-status:%d" % st)
+                if f.get("hd") != hdig[rid]:
+                    chk.monitor_fail("RPC %s (%d->%d): the header map the handler received (digest %s) is not the one the caller sent (%s)" % (rid, a, b, f.get("hd"), hdig[rid]), dict(case=sc))
                 if f["st"] != str(st) or f["id"] != rid or f["srv"] != str(b) or f["from"] != str(b) or f["seen"] != str(a) or f["body"] != want_body or f["sent"] != want_sent:
                     chk.monitor_fail("RPC %s (%d->%d) returned a response that is not its own: %s (expected body %s)" % (rid, a, b, out[:200], want_body), dict(case=sc))
             elif out == "HANG":
@@ -1452,6 +1490,71 @@ def c12_gated(chk):
         st = fields(r["stat 1"])
         if int(st["started"]) - int(st["completed"]) - int(st["dropped"]) != 0:
             chk.monitor_fail("handlers still running after everything was joined: " + r["stat 1"], dict(case=sc))
+
+
+def c12_limited(chk):
+    """The callee's service sits behind anemo-tower's per-peer in-flight limit: calls abandoned while their handler runs
+    give their slot back (any number of them, one at a time or several at once); afterwards the peer gets its full limit."""
+    quick = chk.tier == "quick"
+    scen, metas = [], []
+    for i in range(4 if quick else 24):
+        rng = chk.rng
+        limit = rng.choice([1, 2, 3])
+        mode = rng.choice(["", "b"])
+        n_ab = limit * rng.choice([2, 3, 5])
+        cmds = ["seed=%d delay=1000" % rng.randrange(1 << 30), "node 0 idle=600000 keepalive=5000",
+                "node 1 idle=600000 keepalive=5000 inflight=%d%s" % (limit, mode), "connect 0 1", "sleep 500"]
+        for j in range(n_ab):
+            # one at a time (never more than `limit` in flight), abandoned while the handler runs
+            cmds.append("rpc 0 1 id=a%d size=10 sleep-ms=60000 abandon-us=%d" % (j, rng.choice([100000, 300000])))
+        cmds += ["sleep 100"]
+        cmds += ["bg f%d rpc 0 1 id=f%d size=10 sleep-ms=200" % (k, k) for k in range(limit)]
+        cmds += ["join f%d 600000" % k for k in range(limit)] + ["stat 1", "peers 0"]
+        scen.append("simnet " + " ; ".join(cmds))
+        metas.append((limit, mode, n_ab))
+    outs, parsed = run_scenarios(chk, scen, "fabric:abandon-behind-an-inflight-limit")
+    for sc, res, (limit, mode, n_ab) in zip(scen, parsed, metas):
+        if res is None:
+            continue
+        chk.nontriv(sc)
+        cl = [c.strip() for c in sc[len("simnet "):].split(" ; ")][1:]
+        r = dict(zip(cl, res))
+        chk.count("abandoned-behind-an-inflight-limit", n_ab)
+        fresh = [r["join f%d 600000" % k] for k in range(limit)]
+        if not all(x.startswith("ok st=200") for x in fresh):
+            chk.monitor_fail("after %d abandoned calls (one at a time) behind an in-flight limit of %d (%s) the peer's next %d concurrent calls got %s" % (n_ab, limit, "Block" if mode else "ReturnError", limit, [x[:12] for x in fresh]), dict(case=sc))
+        st = fields(r["stat 1"])
+        if int(st["started"]) - int(st["completed"]) - int(st["dropped"]) != 0:
+            chk.monitor_fail("handlers of abandoned calls still running: " + r["stat 1"], dict(case=sc))
+
+
+def c09_asymmetric_idle(chk):
+    """The two ends are configured with different idle timeouts (3 s and 60 s); the connection is made by either end,
+    plainly or naming the other's identity, and then lost silently (a cut that is never healed): both ends report it
+    lost within the shorter timeout - whoever dialed, and however."""
+    scen, metas = [], []
+    for short_dials in (True, False):
+        for pinned in (False, True):
+            rng = chk.rng
+            a, b = (1, 2) if short_dials else (2, 1)
+            cmds = ["seed=%d delay=%d" % (rng.randrange(1 << 30), rng.choice([500, 2000])),
+                    "node 1 key=11 name=n10 idle=3000 keepalive=1000 ctimeout=1000", "node 2 key=12 name=n10 idle=60000 keepalive=1000 ctimeout=1000",
+                    "connect %d %d%s" % (a, b, " pin=%d" % b if pinned else ""), "sleep 500", "peers 1", "peers 2",
+                    "part 1 2", "sleep 6000", "peers 1", "peers 2", "events 1", "events 2"]
+            scen.append("simnet " + " ; ".join(cmds))
+            metas.append((short_dials, pinned))
+    outs, parsed = run_scenarios(chk, scen, "fabric:asymmetric-idle-timeouts")
+    for sc, res, (short_dials, pinned) in zip(scen, parsed, metas):
+        if res is None:
+            continue
+        chk.nontriv(sc)
+        if res[4] != "[2]" or res[5] != "[1]":
+            chk.monitor_fail("the connection was not established (%s / %s)" % (res[4], res[5]), dict(case=sc))
+            continue
+        for node, x in ((1, res[8]), (2, res[9])):
+            if x != "[]":
+                chk.monitor_fail("6 s after a silent loss node %d (the end with the %s idle timeout; the %s end dialed%s) still lists the lost peer: the connection's idle timeout is the shorter of the two configured ones, 3 s"
+                                 % (node, "3 s" if node == 1 else "60 s", "3 s" if short_dials else "60 s", ", naming the identity" if pinned else ""), dict(case=sc))
 
 
 def c09_handler_panic(chk):
